@@ -180,7 +180,7 @@ class World:
         from bumble import avctp, avdtp, device, hfp, l2cap, rfcomm, sdp
         from bumble.controller import Controller
         from bumble.core import UUID, PhysicalTransport
-        from bumble.gatt import Characteristic, Service
+        from bumble.gatt import Characteristic, CharacteristicValue, Service
         from bumble.hci import Address
         from bumble.host import Host
         from bumble.link import LocalLink
@@ -199,8 +199,11 @@ class World:
         devs = self.devs
         for d in devs:
             d.classic_enabled = True
-        # read-only characteristic: no hostile write can change the reference answer
-        self.char = Characteristic('2A19', Characteristic.Properties.READ, Characteristic.READABLE, CHAR_VALUE)
+        # the reference value is computed on every read, so that a protocol-valid hostile
+        # Write Request cannot change the reference answer (bumble does not enforce the
+        # READABLE/WRITEABLE permission bits: D11a, owned by C11)
+        self.char = Characteristic('2A19', Characteristic.Properties.READ, Characteristic.READABLE,
+                                   CharacteristicValue(read=lambda connection: CHAR_VALUE))
         devs[1].add_service(Service('180F', [self.char]))
         self.sdp_uuid = UUID('00000000-0000-0000-0000-0000000C0017')
         self.sdp_handle = 0x00010001
@@ -350,9 +353,15 @@ class World:
         r = await bounded(self.sdp_client.search_services([self.sdp_uuid]))
         return None if r == ('ok', [self.sdp_handle]) else f'SDP search ({"fresh" if fresh else "open"} channel) -> {r}'
 
-    async def ref_at(self):
-        # HF -> AG "AT+CMEE=1" must be answered with OK (covers RFCOMM both ways)
+    async def ref_at(self, resync=False):
+        """HF -> AG "AT+CMEE=1" must be answered with OK (covers RFCOMM both ways).
+        With resync (used when the hostile bytes did not go in as terminated AT lines, e.g. a
+        mutated ACL packet that happens to carry half a line into the stream): an ERROR
+        result code is accepted once - the request was read as the tail of an unterminated
+        line and correctly refused - and the next request must then be answered with OK."""
         r = await bounded(self.hf.execute_command('AT+CMEE=1', timeout=100000.0))
+        if resync and r == ('error', 'HfpProtocolError'):
+            r = await bounded(self.hf.execute_command('AT+CMEE=1', timeout=100000.0))
         return None if r == ('ok', None) else f'AT+CMEE=1 -> {r}'
 
     async def ref_rfcomm(self):
@@ -407,8 +416,8 @@ class World:
                 bad = await self.ref_sdp()
             elif name == 'sdp.fresh':
                 bad = await self.ref_sdp(fresh=True)
-            elif name == 'at':
-                bad = await (self.ref_at() if self.with_hfp else self.ref_rfcomm())
+            elif name in ('at', 'at.resync'):
+                bad = await (self.ref_at(resync=(name == 'at.resync')) if self.with_hfp else self.ref_rfcomm())
             elif name == 'avdtp':
                 bad = await self.ref_avdtp()
             elif name == 'avctp':
@@ -530,11 +539,15 @@ async def record_seeds():
     # a second round of every protocol exchange, now recorded
     await w.reference(['att', 'echo.le', 'echo.br', 'sdp', 'at', 'avdtp', 'avctp'])
     await bounded(w.peer.discover_services())
+    for svc in w.peer.services:
+        await bounded(svc.discover_characteristics())
+    await bounded(w.cchar.write_value(b'\x01', with_response=True))       # has no effect on the value read
+    await bounded(w.peer.request_mtu(64))
+    await bounded(w.cchar.read_value())
     await bounded(w.sdp_client.search_attributes([w.sdp_uuid], [(0, 0xFFFF)]))
     await bounded(w.avdtp_client.get_capabilities(1))
     if w.hf is not None:
         await bounded(w.hf.execute_command('AT+CIND?', timeout=100000.0))
-    await bounded(w.conn['le'][0].pair(), 4000)
     await idle()
     chan = {}
     cidmap = [{}, {}]
@@ -551,6 +564,12 @@ async def record_seeds():
             chan.setdefault(key, [])
             if p.hex() not in chan[key]:
                 chan[key].append(p.hex())
+    # a pairing exchange carries fresh random values, which would make the case list differ
+    # between runs of the same seed: well-formed SMP PDUs are listed instead of recorded
+    for dev in (0, 1):
+        chan[f'cid6.le.{dev}'] = ['0103000d100303', '0203000d100303', '03' + '5a' * 16, '04' + 'a5' * 16, '0508',
+                                  '06' + '11' * 16, '070102' + '22' * 8, '08' + '33' * 16, '0900f1f1f1f1f1f1',
+                                  '0a' + '44' * 16, '0b0d', '0c' + '55' * 64, '0d' + '66' * 16, '0e00']
     seeds = {'hci': [sorted(set(x.hex() for x in rec['hci'][i])) for i in (0, 1)], 'chan': chan,
              'layout': world_layout(w)}
     for i in (0, 1):
@@ -801,6 +820,8 @@ class Gen:
         """-> (bytes, source tag). family: att|smp|sig|sdp|rfcomm|avdtp|avctp|other"""
         rng = self.rng
         seeds = self.seeds['chan'].get(chan_key, [])
+        if not seeds and family == 'smp':
+            seeds = self.seeds['chan'].get('cid6.le.' + chan_key[-1], [])
         r = rng.below(100)
         if r < 10:
             return rng.bytes(rng.choice([0, 1, 2, 3, 5, 9, 24, 70, 300])), 'random'
@@ -976,14 +997,30 @@ class Gen:
         return (struct.pack('<H', h) + self.body(n))[:max(n, 2)]
 
     def defuse_hci(self, b):
-        """A Disconnection Complete event (status 0) for a live handle is a valid disconnect:
-        the property exempts it; re-aim it at a handle that is not live."""
-        if len(b) >= 6 and b[0] == 0x04 and b[1] == 0x05 and b[3] == 0:
-            h = struct.unpack_from('<H', b, 4)[0] & 0xFFF
-            if h in self.live_handles:
-                b = bytearray(b)
-                struct.pack_into('<H', b, 4, 0x0EEE)
-                return bytes(b)
+        """Events by which a controller legitimately ends or (re)creates a connection are
+        protocol-valid state changes, not hostile input (the property exempts a valid
+        disconnect; a Connection Complete naming a handle that is in use replaces that
+        connection): re-aim them at a handle that is not live.
+          0x05 Disconnection Complete (status 0), 0x03 Connection Complete, 0x2C Synchronous
+          Connection Complete, LE meta 0x01 / 0x0A / 0x29 (LE [Enhanced] Connection Complete
+          [v2]), 0x19 CIS Established."""
+        if len(b) < 6 or b[0] != 0x04:
+            return b
+        code, params = b[1], b[3:]
+        pos = None
+        if code == 0x05 and params[0] == 0:
+            pos = 1
+        elif code in (0x03, 0x2C):
+            pos = 1
+        elif code == 0x3E and len(params) >= 4 and params[0] in (0x01, 0x0A, 0x29, 0x19):
+            pos = 2
+        if pos is None or len(params) < pos + 2:
+            return b
+        h = struct.unpack_from('<H', params, pos)[0] & 0xFFF
+        if h in self.live_handles:
+            b = bytearray(b)
+            struct.pack_into('<H', b, 3 + pos, 0x0EEE)
+            return bytes(b)
         return b
 
     # ---- whole cases
@@ -1087,7 +1124,7 @@ class Gen:
 
 
 # ----------------------------------------------------------------------------- running cases
-FULL_BATTERY = ['conn', 'att', 'echo.le', 'echo.br', 'sdp', 'at', 'avdtp', 'avctp']
+FULL_BATTERY = ['conn', 'att', 'echo.le', 'echo.br', 'sdp', 'at.resync', 'avdtp', 'avctp']
 
 
 async def run_case(w, case):
@@ -1099,6 +1136,7 @@ async def run_case(w, case):
     excs = []
     verdict = None
     n_loop_errors = len(w.loop_errors)
+    case_seen0 = (len(w.l2cap_seen[0]), len(w.l2cap_seen[1]))
     with Watch(budget) as wt:
         for op in ops:
             try:
@@ -1111,8 +1149,12 @@ async def run_case(w, case):
                 verdict = 'non-ordinary exception ' + type(e).__name__
             if verdict:
                 break
-            if not await idle():
-                verdict = 'hang'
+            try:
+                if not await idle():
+                    verdict = 'hang'
+                    break
+            except Abort as a:              # the budget ran out while the loop was being pumped
+                verdict = a.kind
                 break
     if wt.tripped and not verdict:
         verdict = wt.tripped
@@ -1125,16 +1167,40 @@ async def run_case(w, case):
     if verdict:
         res['detail'] = f'{verdict} after {wt.steps} steps (budget {budget}), max depth {wt.max_depth}'
         return res
+    if 'expect_reject' in case:
+        # signalling error reply: the peer of the injected device must have received a
+        # Command Reject (not understood) carrying the identifier of the hostile request
+        op = ops[0]
+        peer = 1 - op['dev']
+        want = bytes([0x01, case['expect_reject'], 2, 0, 0, 0])
+        got = [p for (h, c, p) in w.l2cap_seen[peer][case_seen0[peer]:] if c == op['cid']]
+        if want not in got:
+            res['verdict'] = 'reference request failed (command reject)'
+            res['detail'] = f'no Command Reject {want.hex()} for the unknown command; peer received {[g.hex() for g in got]}'
+            res['ref_exc'] = 'none'
+            return res
+    n_ref = len(w.loop_errors)
     bad = await w.reference(case['refs'])
     if bad:
         name, text = bad
         res['verdict'] = 'connection lost' if name == 'conn' else f'reference request failed ({name})'
         res['detail'] = text
+        # what the stack raised while it failed to answer the reference request
+        res['ref_exc'] = (w.loop_errors[n_ref:] or ['none'])[0]
     return res
 
 
 def signature(case, res):
-    return f"{op_entry(case['ops'][0])}:{res['exc']}:{res['verdict']}"
+    """entry point + exception class + outcome.  The exception is the one the stack raised
+    while failing to answer the reference request (for "connection lost": at injection;
+    for a hang / recursion: none, the only exception is the watchdog's own)."""
+    if res['verdict'] in ('hang', 'recursion'):
+        exc = '-'
+    elif res['verdict'].startswith('reference request failed'):
+        exc = res.get('ref_exc', 'none')
+    else:
+        exc = res['exc']
+    return f"{op_entry(case['ops'][0])}:{exc}:{res['verdict']}"
 
 
 # ============================================================================= regen
@@ -1152,6 +1218,27 @@ ERR_CLASS = {
     'SNesting': 'InvalidPacketError', 'SOverrun': 'InvalidPacketError',
 }
 BASE_UUID_LE = bytes.fromhex('00001000800000805F9B34FB')[::-1]
+
+
+class RealHang(Exception):
+    """the real parser exceeded its step / depth budget inside a correspondence call"""
+
+
+def guarded(nbytes, fn, *args):
+    """Run one call of the implementation under the watchdog (so that a parser that loops
+    is reported, not suffered).  Returns fn's result / raises fn's exception; raises
+    RealHang when the budget is exceeded."""
+    w = Watch(20000 + 400 * nbytes, 400)
+    try:
+        with w:
+            return fn(*args)
+    except Abort as a:
+        raise RealHang(a.kind)
+
+
+def _hang_violation(ctx, what, b, kind):
+    ctx.violation(f'{what}:-:{kind}', f'{what} on {b.hex()[:80]} ({len(b)} bytes): {kind} (step/depth budget exceeded)',
+                  {'kind': 'parser', 'parser': what, 'bytes': b.hex()})
 
 
 def _canon_model_at(v):
@@ -1181,16 +1268,19 @@ def corr_at(ctx, rng):
         else:
             cases.append(bytes(rng.choice(alphabet) for _ in range(n)))
     exprs = [f'(tokenize {coq_bytes(b)}, parse_parameters {coq_bytes(b)})' for b in cases]
-    model = ctx.coq_eval(['Model.HostileAt'], exprs)
+    model = yield exprs
     for b, (mt, mp) in zip(cases, model):
         try:
-            it = ('ok', [bytes(t) for t in at.tokenize_parameters(b)])
+            it = ('ok', [bytes(t) for t in guarded(len(b), at.tokenize_parameters, b)])
         except at.AtParsingError:
             it = ('error', None)
         try:
-            ip = ('ok', _canon_impl_at(at.parse_parameters(b)))
+            ip = ('ok', _canon_impl_at(guarded(len(b), at.parse_parameters, b)))
         except at.AtParsingError:
             ip = ('error', None)
+        except RealHang as h:
+            _hang_violation(ctx, 'at.parse_parameters', b, str(h))
+            continue
         mt_c = ('ok', [bytes(t) for t in mt[1]]) if mt[0] == 'inr' else ('error', None)
         mp_c = ('ok', [_canon_model_at(x) for x in mp[1]]) if mp[0] == 'inr' else ('error', None)
         nontrivial = any(c in b for c in b'(),"')
@@ -1212,9 +1302,13 @@ def corr_options(ctx, rng):
                 b[i] = rng.choice([0, 0, 1, 2, 4, 255])
         cases.append(bytes(b))
     exprs = [f'decode_options (decode_options_fuel {coq_bytes(b)}) {coq_bytes(b)}' for b in cases]
-    model = ctx.coq_eval(['Model.HostileFields'], exprs)
+    model = yield exprs
     for b, m in zip(cases, model):
-        impl = [[int(t), bytes(v)] for t, v in l2cap.L2CAP_Control_Frame.decode_configuration_options(b)]
+        try:
+            impl = [[int(t), bytes(v)] for t, v in guarded(len(b), l2cap.L2CAP_Control_Frame.decode_configuration_options, b)]
+        except RealHang as h:
+            _hang_violation(ctx, 'l2cap.decode_configuration_options', b, str(h))
+            continue
         mm = None if m is None else [[t, bytes(v)] for t, v in m[1]]
         ctx.case(('opts', b), len(b) >= 2, None)
         ctx.count('corr.options')
@@ -1235,12 +1329,20 @@ def _canon_fvals(vals):
     return [bytes(v[1]) if v[0] == 'VBytes' else v[1] for v in vals]
 
 
-def corr_pdus(ctx, rng):
-    """ATT_PDU.from_bytes, SMP_Command.from_bytes, and the signalling handler."""
-    from bumble import att, l2cap, smp
+def corr_att(ctx, rng):
+    from bumble import att
+    yield from _corr_layer(ctx, rng, 'att', 'att_classes', att.ATT_PDU.from_bytes)
+
+
+def corr_smp(ctx, rng):
+    from bumble import smp
+    yield from _corr_layer(ctx, rng, 'smp', 'smp_classes', smp.SMP_Command.from_bytes)
+
+
+def _corr_layer(ctx, rng, layer, table, real):
+    """ATT_PDU.from_bytes / SMP_Command.from_bytes"""
     reg = _registry(rng)
-    for layer, table, real in (('att', 'att_classes', att.ATT_PDU.from_bytes),
-                               ('smp', 'smp_classes', smp.SMP_Command.from_bytes)):
+    if True:
         cases = [b'']
         for code in reg[layer] + [0, 0x7F, 0xFF]:
             for n in (0, 1, 2, 3, 4, 5, 6, 7, 15, 16, 17, 40, 64, 65):
@@ -1248,16 +1350,22 @@ def corr_pdus(ctx, rng):
         for _ in range(ctx.n(200, 3000)):
             cases.append(bytes([rng.choice(reg[layer] + [rng.below(256)])]) + rng.bytes(rng.choice([0, 1, 2, 3, 4, 6, 16, 20])))
         exprs = [f'{layer}_from_bytes {table} {coq_bytes(b)}' for b in cases]
-        model = ctx.coq_eval(['Model.HostileFields', 'Gen.C17Tables'], exprs)
+        model = yield exprs
+        from bumble import core
+        n0 = len(core.UUID.UUIDS)
         for b, m in zip(cases, model):
+            _trim_uuid_registry(n0)
             try:
-                inst = real(b)
+                inst = guarded(len(b), real, b)
                 if type(inst).__name__ in ('ATT_PDU', 'SMP_Command'):
                     code = int(inst.op_code) if layer == 'att' else int(inst.code)
                     impl = ['generic', code, bytes(inst.payload)]
                 else:
                     code = int(inst.op_code) if layer == 'att' else int(inst.code)
                     impl = ['known', code, _field_values(inst)]
+            except RealHang as h:
+                _hang_violation(ctx, f'{layer}.from_bytes', b, str(h))
+                continue
             except Exception as e:
                 impl = ['error', type(e).__name__]
             ctx.count(f'corr.{layer}')
@@ -1275,9 +1383,14 @@ def corr_pdus(ctx, rng):
             ctx.count(f'corr.{layer}.{mm[0]}')
             if mm != impl:
                 ctx.disagree(f'{layer} from_bytes', {'bytes': b.hex()}, repr(mm), repr(impl))
-    # ---- signalling: real ChannelManager.on_pdu / on_control_frame / from_bytes, handler
-    # methods replaced by recording stubs (one of them raising)
+
+
+def corr_sig(ctx, rng):
+    """signalling: real ChannelManager.on_pdu / on_control_frame / from_bytes, handler
+    methods replaced by recording stubs (one of them raising)"""
+    from bumble import l2cap
     from bumble.host import Host
+    reg = _registry(rng)
 
     class Conn:
         handle = 0x0042
@@ -1294,7 +1407,7 @@ def corr_pdus(ctx, rng):
         cases.append(rng.bytes(rng.choice([0, 1, 2, 3, 4, 5, 8, 12])))
     handler = f'(fun (code ident : Z) (vals : list fval) (s : Z) => (s + 1, @nil (list Z), code =? {RAISE}))'
     exprs = [f'on_signalling_pdu Z {handler} sig_classes sig_handled 0 {coq_bytes(b)}' for b in cases]
-    model = ctx.coq_eval(['Model.HostileFields', 'Gen.C17Tables'], exprs)
+    model = yield exprs
 
     class StubRaised(Exception):
         pass
@@ -1314,10 +1427,13 @@ def corr_pdus(ctx, rng):
                 setattr(mgr, name, stub)
         tables_before = (dict(mgr.channels), dict(mgr.le_coc_channels), dict(mgr.identifiers))
         try:
-            mgr.on_pdu(Conn, l2cap.L2CAP_SIGNALING_CID, b)
+            guarded(len(b), mgr.on_pdu, Conn, l2cap.L2CAP_SIGNALING_CID, b)
             exc = None
         except StubRaised:
             exc = 'stub'
+        except RealHang as h:
+            _hang_violation(ctx, 'l2cap.ChannelManager.on_pdu', b, str(h))
+            continue
         except Exception as e:
             exc = type(e).__name__
         unchanged = tables_before == (dict(mgr.channels), dict(mgr.le_coc_channels), dict(mgr.identifiers))
@@ -1460,7 +1576,7 @@ def corr_sdp(ctx, rng):
     for _ in range(ctx.n(900, 9000)):
         cases.append(gen_sdp_element(rng))
     exprs = [f'element_from_bytes true sdp_max_nesting {coq_bytes(b)}' for b in cases]
-    model = ctx.coq_eval(['Model.HostileSdp', 'Gen.C17Tables'], exprs)
+    model = yield exprs
     calls = [0]
     orig = sdp.DataElementParser.parse_next
 
@@ -1468,11 +1584,17 @@ def corr_sdp(ctx, rng):
         calls[0] += 1
         return orig(self)
     sdp.DataElementParser.parse_next = counted
+    from bumble import core
+    n0 = len(core.UUID.UUIDS)
     try:
         for b, m in zip(cases, model):
+            _trim_uuid_registry(n0)
             calls[0] = 0
             try:
-                impl = ['ok', _canon_impl_elem(sdp.DataElement.from_bytes(b))]
+                impl = ['ok', _canon_impl_elem(guarded(len(b), sdp.DataElement.from_bytes, b))]
+            except RealHang as h:
+                _hang_violation(ctx, 'sdp.DataElement.from_bytes', b, str(h))
+                continue
             except Exception as e:
                 impl = ['error', type(e).__name__]
             impl.append(calls[0])
@@ -1505,14 +1627,14 @@ def corr_host(ctx, rng):
     cases = []
     for _ in range(ctx.n(500, 6000)):
         ready = rng.chance(5, 6)
-        conns = sorted(set(rng.choice(handles) for _ in range(rng.below(3))))
-        cis = sorted(set([0x060] if rng.chance(1, 8) else []))
+        conns = sorted(set(rng.choice(handles) for _ in range(rng.below(4))))
+        cis = sorted(set([0x060] if rng.chance(1, 4) else []))
         t = rng.choice([2, 2, 2, 2, 3, 5, 5, 0, 6, 9, 0xFF])
         r = rng.below(10)
         if r == 0:
             pkt = bytes([t])[:rng.below(2)] + rng.bytes(rng.below(4))
         elif t == 2:
-            h = rng.choice(handles + [0x060, 0x0ABC]) | rng.below(4) << 12 | rng.below(4) << 14
+            h = rng.choice((conns or handles) + handles + [0x060, 0x060, 0x0ABC]) | rng.below(4) << 12 | rng.below(4) << 14
             data = rng.bytes(rng.choice([0, 1, 4, 7, 20]))
             n = len(data) if rng.chance(3, 4) else rng.choice([0, len(data) + 1, 0xFFFF])
             pkt = bytes([2]) + struct.pack('<HH', h, n) + data
@@ -1534,7 +1656,7 @@ def corr_host(ctx, rng):
         cases.append((ready, conns, cis, pkt))
     exprs = [f'snd (host_on_packet (mkHost {"true" if rd else "false"} {coq_list(cs, coq_z)} {coq_list(ci, coq_z)} []) {coq_bytes(p)})'
              for rd, cs, ci, p in cases]
-    model = ctx.coq_eval(['Model.HostileHost'], exprs)
+    model = yield exprs
     for (ready, conns, cis, pkt), m in zip(cases, model):
         host = Host()
         host.ready = ready
@@ -1552,8 +1674,11 @@ def corr_host(ctx, rng):
         orig = host.on_hci_packet
         host.on_hci_packet = lambda p: (dispatched.append(1), orig(p))
         try:
-            host.on_packet(pkt)
+            guarded(len(pkt), host.on_packet, pkt)
             exc = None
+        except RealHang as h:
+            _hang_violation(ctx, 'Host.on_packet', pkt, str(h))
+            continue
         except Exception as e:
             exc = type(e).__name__
         table_ok = sorted(host.connections) == conns and sorted(host.cis_links) == cis and host.ready == ready
@@ -1583,12 +1708,31 @@ def corr_host(ctx, rng):
 
 
 def correspondence(ctx):
+    """Each corr_* is a generator: it yields lists of Coq expressions and receives the
+    evaluated models.  All expressions of a round are evaluated in one coq_eval call (the
+    shards run in parallel)."""
     rng = ctx.rng.fork('correspondence')
-    corr_at(ctx, rng)
-    corr_options(ctx, rng)
-    corr_pdus(ctx, rng)
-    corr_sdp(ctx, rng)
-    corr_host(ctx, rng)
+    gens = [f(ctx, rng) for f in (corr_at, corr_options, corr_att, corr_smp, corr_sig, corr_sdp, corr_host)]
+    pending = []
+    for g in gens:
+        try:
+            pending.append((g, next(g)))
+        except StopIteration:
+            pass
+    requires = ['Model.HostileAt', 'Model.HostileFields', 'Model.HostileSdp', 'Model.HostileHost', 'Gen.C17Tables']
+    while pending:
+        exprs = [e for _, es in pending for e in es]
+        values = ctx.coq_eval(requires, exprs, shard=300)
+        nxt = []
+        pos = 0
+        for g, es in pending:
+            part = values[pos:pos + len(es)]
+            pos += len(es)
+            try:
+                nxt.append((g, g.send(part)))
+            except StopIteration:
+                pass
+        pending = nxt
 
 
 # ============================================================================= campaign
@@ -1645,6 +1789,22 @@ def directed_cases():
         out.append({'name': name, 'target': 'at', 'src': 'directed', 'refs': ['conn', 'at'],
                     'ops': [{'k': 'at', 'dev': dev, 'data': data.hex()}]})
     # signalling: too short, unknown code, length mismatch -> echo must still be answered
+    for name, conn, cid, ident, data in (('sig-reject-unknown-code-br', 'br', 1, 7, 'c8070000'),
+                                         ('sig-reject-unknown-code-le', 'le', 5, 9, '7f09020000ff'),
+                                         ('sig-reject-unhandled-class', 'br', 1, 3, '0b030400010000000000'),
+                                         ('sig-reject-create-channel', 'br', 1, 5, '0c0505000300400001')):
+        out.append({'name': name, 'target': f'cid{cid}', 'src': 'directed', 'expect_reject': ident,
+                    'refs': ['conn', 'echo.' + conn],
+                    'ops': [{'k': 'l2cap', 'conn': conn, 'dev': 1, 'cid': cid, 'data': data}]})
+    # a hostile channel in configuration: Connection Request for RFCOMM, then Configure
+    # Requests for the new local CID (0x44) with zero-length / truncated / oversize options
+    for name, opts in (('sig-config-zero-length-options', '01000100010001000100'), ('sig-config-truncated-option', '0102ff'),
+                       ('sig-config-oversize-option', '01ff0001'), ('sig-config-odd-tail', '0100020005')):
+        body = '44000000' + opts
+        cfg = '040a' + struct.pack('<H', len(body) // 2).hex() + body
+        out.append({'name': name, 'target': 'cid1', 'src': 'directed', 'refs': ['conn', 'echo.br', 'sdp.fresh'],
+                    'ops': [{'k': 'l2cap', 'conn': 'br', 'dev': 1, 'cid': 1, 'data': '0209040003007000'},
+                            {'k': 'l2cap', 'conn': 'br', 'dev': 1, 'cid': 1, 'data': cfg}]})
     for name, conn, cid, data in (('sig-short', 'br', 1, '0801'), ('sig-unknown-code', 'br', 1, 'c8070000'),
                                   ('sig-length-mismatch', 'le', 5, '0805ff7f0102'), ('sig-empty', 'le', 5, ''),
                                   ('sig-config-options-zero-len', 'br', 1, '0409080041000000010001000100')):
@@ -1686,11 +1846,40 @@ def is_terminal(case):
     return 'pair' in case['refs']
 
 
+class WorldBuildFailed(Exception):
+    """the well-formed set-up traffic itself did not complete (hang / recursion / stall)"""
+
+
+_BUILD_CHECKED = set()
+
+
+async def build_world(flavour):
+    """World().build(); the first build of each flavour in a process runs under the step and
+    depth watchdog (later builds execute the same code on the same traffic), every build is
+    bounded in event-loop rounds, so that a change that makes plain connection set-up loop
+    or stall is reported instead of suffered."""
+    w = World()
+    if flavour in _BUILD_CHECKED:
+        r = await bounded(w.build(with_hfp=flavour), 200000)
+    else:
+        try:
+            with Watch(40_000_000, 400) as wt:
+                r = await bounded(w.build(with_hfp=flavour), 200000)
+        except Abort as a:
+            raise WorldBuildFailed(a.kind)
+        if wt.tripped:
+            raise WorldBuildFailed(wt.tripped)
+        _BUILD_CHECKED.add(flavour)
+    if r[0] != 'ok':
+        raise WorldBuildFailed(f'set-up did not complete: {r}')
+    return w
+
+
 async def _segment(cases, start, flavour, sink):
     """One world: run cases[start:] until a violation, a terminal case or WORLD_LIFETIME.
     sink(case, res, history) is called per case.  Returns the next index."""
     from bumble import core
-    w = await World().build(with_hfp=flavour)
+    w = await build_world(flavour)
     n0 = len(core.UUID.UUIDS)
     history = []
     i = start
@@ -1701,14 +1890,16 @@ async def _segment(cases, start, flavour, sink):
         res = await run_case(w, case)
         res['reaction'] = (len(w.l2cap_seen[0]), len(w.l2cap_seen[1])) != seen0 or res['exc'] != 'none'
         if res['verdict'] is None and not is_terminal(case):
-            battery = [r for r in FULL_BATTERY if r not in case['refs'] or r in ('conn',)]
+            battery = [r for r in FULL_BATTERY if r.split('.resync')[0] not in case['refs'] or r in ('conn',)]
             if case['target'] in SIGNALLING_TARGETS:
                 # signalling can legitimately re-negotiate or close dynamic channels
                 battery = [r for r in battery if r in ('conn', 'att', 'echo.le', 'echo.br')]
+            n_ref = len(w.loop_errors)
             bad = await w.reference(battery)
             if bad:
                 res['verdict'] = 'connection lost' if bad[0] == 'conn' else f'reference request failed ({bad[0]})'
                 res['detail'] = 'afterwards, on another protocol: ' + bad[1]
+                res['ref_exc'] = (w.loop_errors[n_ref:] or ['none'])[0]
         sink(case, res, list(history))
         _trim_uuid_registry(n0)
         history.append(case)
@@ -1737,7 +1928,7 @@ def replay_sequence(history, case):
 
     async def go():
         from bumble import core
-        w = await World().build(with_hfp=case.get('hfp', True))
+        w = await build_world(case.get('hfp', True))
         n0 = len(core.UUID.UUIDS)
         res = None
         for c in seq:
@@ -1745,13 +1936,15 @@ def replay_sequence(history, case):
             if res['verdict'] is None and c is not seq[-1] and not is_terminal(c):
                 pass
             if res['verdict'] is None and c is seq[-1] and not is_terminal(c):
-                battery = [r for r in FULL_BATTERY if r not in c['refs'] or r in ('conn',)]
+                battery = [r for r in FULL_BATTERY if r.split('.resync')[0] not in c['refs'] or r in ('conn',)]
                 if c['target'] in SIGNALLING_TARGETS:
                     battery = [r for r in battery if r in ('conn', 'att', 'echo.le', 'echo.br')]
+                n_ref = len(w.loop_errors)
                 bad = await w.reference(battery)
                 if bad:
                     res['verdict'] = 'connection lost' if bad[0] == 'conn' else f'reference request failed ({bad[0]})'
                     res['detail'] = 'afterwards, on another protocol: ' + bad[1]
+                    res['ref_exc'] = (w.loop_errors[n_ref:] or ['none'])[0]
             _trim_uuid_registry(n0)
             if res['verdict'] and c is not seq[-1]:
                 break
@@ -1761,6 +1954,7 @@ def replay_sequence(history, case):
 
 def campaign(ctx, cases, label='campaign'):
     stats = {'max_steps': 0, 'max_depth': 0, 'max_ratio': 0.0, 'worlds': 0}
+    found = []
 
     def sink(case, res, history):
         key = (case['target'], json.dumps(case['ops'], sort_keys=True))
@@ -1776,17 +1970,28 @@ def campaign(ctx, cases, label='campaign'):
         stats['max_depth'] = max(stats['max_depth'], res['depth'])
         stats['max_ratio'] = max(stats['max_ratio'], res['steps'] / (STEP_BASE + STEP_PER_BYTE * res['bytes']))
         if res['verdict']:
-            sig = signature(case, res)
-            # minimise: does the case alone, in a fresh world, fail the same way?
-            hist = history
-            if history:
-                alone = replay_sequence([], case)
-                if alone['verdict'] and signature(case, alone) == sig:
-                    hist = []
-            ctx.violation(sig, f"{op_entry(case['ops'][0])} <- {case.get('name', case['src'])}: {res['verdict']}: {res['detail']}"
-                               f" (exceptions at injection: {res['excs'][:4]})",
-                          {'hfp': case.get('hfp', True), 'history': hist, 'case': case})
-    run_cases(cases, sink)
+            found.append((signature(case, res), case, res, history))
+    try:
+        run_cases(cases, sink)
+    except WorldBuildFailed as e:
+        ctx.violation(f'world.build:-:{str(e).split(":")[0]}',
+                      f'the well-formed set-up traffic (connections, GATT discovery, SDP/RFCOMM/HFP/AVDTP/AVCTP channels) '
+                      f'did not complete: {e}', {'kind': 'build'})
+    minimised = {}
+    for sig, case, res, history in found:
+        # minimise once per signature: does the case alone, in a fresh world, fail the same way?
+        if history and sig not in minimised:
+            alone = replay_sequence([], case)
+            minimised[sig] = bool(alone['verdict']) and signature(case, alone) == sig
+        hist = [] if (not history or minimised.get(sig)) else history
+        if history and not hist:
+            # every report of this signature must stand on its own
+            alone = replay_sequence([], case)
+            if not (alone['verdict'] and signature(case, alone) == sig):
+                hist = history
+        ctx.violation(sig, f"{op_entry(case['ops'][0])} <- {case.get('name', case['src'])}: {res['verdict']}: {res['detail']}"
+                           f" (exceptions at injection: {res['excs'][:4]})",
+                      {'hfp': case.get('hfp', True), 'history': hist, 'case': case})
     ctx.extra.setdefault('campaign', {})[label] = {
         'max_steps_per_injection': stats['max_steps'], 'max_python_depth': stats['max_depth'],
         'max_fraction_of_step_budget': round(stats['max_ratio'], 4),
@@ -1822,7 +2027,7 @@ def run(ctx):
     seeds = asyncio.run(record_seeds())
     ctx.extra['recorded_seed_pdus'] = {k: len(v) for k, v in sorted(seeds['chan'].items())}
     ctx.extra['recorded_hci_packets'] = [len(x) for x in seeds['hci']]
-    cases = directed_cases() + load_corpus()
+    cases = load_corpus() + directed_cases()
     gen = Gen(ctx.rng.fork('campaign'), seeds)
     for _ in range(ctx.n(2200, 40000)):
         cases.append(gen.case())
@@ -1847,8 +2052,42 @@ def search(ctx):
     campaign(ctx, cases, label='search')
 
 
+def _parser(name):
+    """the real entry point named in a 'parser' replay (imported before the watchdog starts)"""
+    from bumble import at, att, l2cap, sdp, smp
+    return {
+        'at.parse_parameters': at.parse_parameters,
+        'l2cap.decode_configuration_options': l2cap.L2CAP_Control_Frame.decode_configuration_options,
+        'att.from_bytes': att.ATT_PDU.from_bytes,
+        'smp.from_bytes': smp.SMP_Command.from_bytes,
+        'sdp.DataElement.from_bytes': sdp.DataElement.from_bytes,
+    }.get(name)
+
+
 def replay(ctx, obj):
     r = obj['replay']
+    if r.get('kind') == 'build':
+        try:
+            asyncio.run(build_world(True))
+            print('oracle      : holds (the world is set up within its budgets)')
+        except WorldBuildFailed as e:
+            print('oracle      :', e)
+        return 0
+    if r.get('kind') == 'parser':
+        b = bytes.fromhex(r['bytes'])
+        print('parser      :', r['parser'], f'({len(b)} bytes)')
+        fn = _parser(r['parser'])
+        if fn is None:
+            print('oracle      : (no stand-alone replay for this entry point; see the campaign replays)')
+            return 0
+        try:
+            guarded(len(b), fn, b)
+            print('oracle      : holds (returned a value within the step and depth budget)')
+        except RealHang as h:
+            print(f'oracle      : {h} (step/depth budget exceeded)')
+        except Exception as e:
+            print(f'oracle      : holds (raised {type(e).__name__} within the step and depth budget)')
+        return 0
     res = replay_sequence(r.get('history', []), r['case'])
     print('entry point :', op_entry(r['case']['ops'][0]))
     print('injections  :', json.dumps(r['case']['ops']))
